@@ -93,6 +93,8 @@ fn main() {
         "overlay-index" => ovl::run(seed, cases, &mut sink),
         "bitops" => bitops::run(seed, cases, &mut sink),
         "bitops-node" => bitops::run_nodes(seed, cases, &mut sink),
+        "pushchunk-branch" => bitops::pushchunk::run(seed, cases, &mut sink),
+        "pushchunk" => leafupd::pushchunk_lb::run(seed, cases, &mut sink),
         "seglog" => seglog::run(seed, cases, &mut sink),
         "triepos" => triepos::run(seed, cases, &mut sink),
         "shards" => shards::run(seed, cases, &mut sink),
@@ -101,6 +103,7 @@ fn main() {
         "delta-log" => delta::run_log(seed, cases, &mut sink),
         "overflow" => overflow::run(seed, cases, &mut sink),
         "leafupd" => leafupd::run(seed, cases, &mut sink),
+        "pushchunk-leaf" => leafupd::pushchunk::run(seed, cases, &mut sink),
         "lockrec" => lockrec::run(seed, cases, &mut sink, &args),
         "lockrec-aba" => lockrec::aba(seed, cases, &mut sink),
         "pipeline" => pipeline::run(seed, cases, &mut sink, &args),
